@@ -99,6 +99,16 @@ theorem open_written (ns : NewSsi) (h : ns.WF) (cur : Option Bytes) (bytes : Byt
   obtain ⟨_, rfl⟩ := written_file ns h cur bytes hw
   exact ⟨open_image h, rfl, rfl, rfl⟩
 
+/-- `esl_ssi_Open`'s documented failures, for ANY file contents: shorter than the magic/flags/offset-size words, or a
+    wrong magic number → `eslEFORMAT`; an offset size other than 4 or 8 → `eslERANGE` -/
+theorem open_rejects (d : Array UInt8) :
+    (d.size < 12 → Ssi.open d = .error .eformat) ∧
+    (∀ magic flags offsz, readFields d 0 [4, 4, 4] = some [magic, flags, offsz] →
+      (magic ≠ V30MAGIC ∧ magic ≠ V30SWAP → Ssi.open d = .error .eformat) ∧
+      ((magic = V30MAGIC ∨ magic = V30SWAP) → offsz ≠ 4 ∧ offsz ≠ 8 → Ssi.open d = .error .erange)) :=
+  ⟨open_short d, fun magic flags offsz h =>
+    ⟨open_bad_magic d magic flags offsz h, open_bad_offsz d magic flags offsz h⟩⟩
+
 /-- `FindName` returns exactly the stored `(fh, roff, doff, L)` for every stored primary key -/
 theorem findName_stored (ns : NewSsi) (h : ns.WF) (cur : Option Bytes) (bytes : Bytes) (hw : (ns.write cur).2.2 = some bytes)
     (k : PKey) (hk : k ∈ ns.pkeys) :
